@@ -52,6 +52,29 @@ impl OuterFrom {
     }
 }
 
+impl OuterFrom {
+    /// Reject tuple structs the generated code cannot populate. Receivers of these traits are
+    /// filled in by field name; the only tuple struct that works is a newtype, and only for the
+    /// traits whose impl delegates to the inner type (`newtype_delegates`).
+    pub fn validate_tuple_struct(
+        &self,
+        newtype_delegates: bool,
+        errors: &mut crate::error::Accumulator,
+    ) {
+        if let Data::Struct(fields) = &self.container.data {
+            let supported_len = if newtype_delegates { 1 } else { 0 };
+            if fields.is_tuple() && fields.len() > supported_len {
+                let message = if newtype_delegates {
+                    "this trait cannot be derived for tuple structs with more than one field"
+                } else {
+                    "this trait cannot be derived for tuple structs, only for structs with named fields"
+                };
+                errors.push(Error::custom(message).with_span(&self.container.ident));
+            }
+        }
+    }
+}
+
 impl ParseAttribute for OuterFrom {
     fn parse_nested(&mut self, mi: &Meta) -> Result<()> {
         let path = mi.path();
